@@ -5,15 +5,16 @@ PID = "C09"
 RULE = ("combining frame: exhaustive over all key sequences of length <= 5 (quick) / <= 7 (thorough) over a 5-key alphabet on "
         "tables of initial capacity 1 and 8 with scratch 1 and 2, compacted at the end and once in the middle; random op "
         "sequences combine/compact with capacities {1,2,4,8,16}, scratch {1,2,3,8}, up to 60 rows, Zipf-like keys; "
-        "observed after every op: rows (sorted), Len, Cap, threshold; combiner: chunk {1,2,4,8}, spill target 1..6, up to 8 "
+        "observed after every op: rows (sorted), Len, Cap, threshold and every occupied slot (index, key, value) of the hash table; combiner: chunk {1,2,4,8}, spill target 1..6, up to 8 "
         "Combine calls, Reader drained with random destination sizes, spill directories counted; plus combiners fed 200..1000 "
         "rows over 140..500 keys with spill targets 130..1000, so that spilled runs exceed the 128-row merge buffers; "
         "non-trivial = a key occurs twice or the table grows")
 TRUST = ["sort.Sort sorts given Frame.Less/Swap (C11)", "sliceio.Spiller stores and returns the frames it is given (C07 codec)"]
-ASSUMPTIONS = ["the combine function is commutative and associative (the harness uses +)",
-               "the probing loop's refinement to the keyed fold is tied by this correspondence; in Lean: the specification's "
-               "laws (spill_runs_spec, foldMap_perm) and the probe-coverage lemma BS.Probe.tri_inj"]
-EXTRA_TARGETS = ("BS.Proofs.Probe",)
+ASSUMPTIONS = ["the combine function is commutative and associative for the spill/merge laws (the harness uses +); the hash "
+               "table theorem BS.Table.combining_frame_spec needs neither",
+               "the hash table model BS.Table (hashing with murmur3/hashSeed, triangular probing, equality test, threshold, "
+               "doubling, rehash) is compared slot by slot with the real combining frame after every Combine"]
+EXTRA_TARGETS = ("BS.Proofs.Probe", "BS.Proofs.Table")
 
 
 def gen(r, tier):
